@@ -44,6 +44,19 @@ pub fn answered(addr: usize, got: Vec<String>) {
     for x in got { l.push(' '); l.push_str(&x); }
     s.lines.push(l);
 }
+/// the registered real function number `fid` ran with this mock argument (None: `self` is not among the listed
+/// expressions) and these values
+pub fn unmocked(fid: u32, addr: Option<usize>, got: Vec<String>) {
+    let mut s = st();
+    s.answered += 1;
+    let who = match addr {
+        None => "none",
+        Some(a) => if a == 0 && s.expect_addr == 0 { "moved" } else if a == s.expect_addr { "same" } else { "OTHER" },
+    };
+    let mut l = format!("U f={fid} self={who}");
+    for x in got { l.push(' '); l.push_str(&x); }
+    s.lines.push(l);
+}
 /// the caller announces where its mock instance lives (0: passed by value)
 pub fn expect(addr: usize) {
     st().expect_addr = addr;
